@@ -180,11 +180,11 @@ int fb_gen_common_c_builder_header(fb_output_t *out)
         "static inline int N ## _end_pe_as_root(NS ## builder_t *B)\\\n"
         "{ return N ## _add(B, NS ## buffer_end(B, TN ## _end_pe(B))); }\\\n"
         "static inline int N ## _create_as_root(NS ## builder_t *B __ ## TN ## _formal_args)\\\n"
-        "{ return N ## _add(B, flatcc_builder_create_buffer(B, FID, 0,\\\n"
-        "  TN ## _create(B __ ## TN ## _call_args), A, flatcc_builder_is_nested)); }\\\n"
+        "{ return NS ## buffer_start(B, FID) ? -1 :\\\n"
+        "  N ## _add(B, NS ## buffer_end(B, TN ## _create(B __ ## TN ## _call_args))); }\\\n"
         "static inline int N ## _create_as_typed_root(NS ## builder_t *B __ ## TN ## _formal_args)\\\n"
-        "{ return N ## _add(B, flatcc_builder_create_buffer(B, TFID, 0,\\\n"
-        "  TN ## _create(B __ ## TN ## _call_args), A, flatcc_builder_is_nested)); }\\\n"
+        "{ return NS ## buffer_start(B, TFID) ? -1 :\\\n"
+        "  N ## _add(B, NS ## buffer_end(B, TN ## _create(B __ ## TN ## _call_args))); }\\\n"
         "static inline int N ## _nest(NS ## builder_t *B, void *data, size_t size, uint16_t align)\\\n"
         "{ return N ## _add(B, flatcc_builder_create_vector(B, data, size, 1,\\\n"
         "  align < A ? A : align, FLATBUFFERS_COUNT_MAX(1))); }\\\n"
